@@ -89,7 +89,7 @@ PROPS = {
               "exhaustively up to length L over a 20-symbol alphabet in 4 positions (root, sequence item, mapping key, mapping value), a list of type-like "
               "words and special characters, random Unicode and multi-line strings, boundary integers and floats; x {compact on/off} x {multiline_strings on/off}; "
               "non-trivial = the tree needs a quoting / formatting decision (not only bare safe words); distinct = distinct trees"),
-        builds=[('rel', 1.0, 1.0)], must_observe=['dumps', 'round_trips_ok'],
+        builds=[('rel', 1.0, 1.0)], must_observe=['dumps', 'round_trips_ok', 'deep_trees'],
         assumptions=COMMON_ASSUME + ["Representation, Alias and BadValue nodes are outside the statement's domain and are not generated", "float equality treats NaN as equal to NaN (as the library's own Eq does)"]),
     'C13': dict(
         rule=("random JSON values (nesting mostly <= 6, some 40..200; unique keys; hostile strings as keys and values; numbers in all JSON spellings incl. "
